@@ -538,3 +538,52 @@ func c19Classify(dec string, ty reflect.Type, doc, lit string, je, se error, dif
 func isFloatKind(v reflect.Value) bool {
 	return v.Kind() == reflect.Float32 || v.Kind() == reflect.Float64
 }
+
+// c19LeafDiffsAll is c19LeafDiffs with byte slices walked element-wise and
+// integer leaves offered to excuse.
+func c19LeafDiffsAll(a, b reflect.Value, excuse func(x, y reflect.Value) bool) bool {
+	if a.Type() != b.Type() {
+		return false
+	}
+	switch a.Kind() {
+	case reflect.Slice, reflect.Array:
+		if a.Len() != b.Len() {
+			return false
+		}
+		for i := 0; i < a.Len(); i++ {
+			if !c19LeafDiffsAll(a.Index(i), b.Index(i), excuse) {
+				return false
+			}
+		}
+		return true
+	case reflect.Uint8, reflect.Uint16, reflect.Uint32, reflect.Uint64, reflect.Uint, reflect.Uintptr:
+		return a.Uint() == b.Uint() || excuse(a, b)
+	case reflect.Int8, reflect.Int16, reflect.Int32, reflect.Int64, reflect.Int:
+		return a.Int() == b.Int() || excuse(a, b)
+	case reflect.Struct:
+		for i := 0; i < a.NumField(); i++ {
+			if !c19LeafDiffsAll(a.Field(i), b.Field(i), excuse) {
+				return false
+			}
+		}
+		return true
+	case reflect.Ptr, reflect.Interface:
+		if a.IsNil() || b.IsNil() {
+			return a.IsNil() == b.IsNil()
+		}
+		return c19LeafDiffsAll(a.Elem(), b.Elem(), excuse)
+	case reflect.Map:
+		if a.Len() != b.Len() {
+			return false
+		}
+		for _, k := range a.MapKeys() {
+			bv := b.MapIndex(k)
+			if !bv.IsValid() || !c19LeafDiffsAll(a.MapIndex(k), bv, excuse) {
+				return false
+			}
+		}
+		return true
+	default:
+		return deepEq(a, b, "", 0) == ""
+	}
+}
